@@ -139,12 +139,18 @@ class Roles:
         return None
 
     def _find_prepass(self):
+        """the callee of the day loop from which a writer of lot.cost_offset is reachable (through helpers)"""
+        if self.dayloop is None:
+            return None
+        writers = {w[0].id for w in self.field_writes(LOT, "cost_offset") if w[2] != "construct"}
         out = []
-        for b in self.bodies:
-            if self.dayloop is not None and b.id == self.dayloop.id:
+        for i, t in self.dayloop.calls():
+            cb = self.F.bodies.get(t["callee"])
+            if cb is None or cb not in self.bodies or (self.cascade is not None and cb.id == self.cascade.id):
                 continue
-            if any(t["callee"].endswith("AcquisitionLedger::add_acquisition") and b.in_loop(i) for i, t in b.calls()):
-                out.append(b)
+            seen = self._callees_within(cb, 3)
+            if seen & writers and cb.id not in [o.id for o in out]:
+                out.append(cb)
         return out[0] if len(out) == 1 else None
 
     def _find_canon(self):
@@ -155,6 +161,17 @@ class Roles:
             if cb is not None and any(is_slice_sort(u["callee"]) for _, u in cb.calls()):
                 return cb
         return None
+
+    def role_ids(self):
+        ids = {v[0].id for v in self.legs.values()} | set(self.helpers)
+        for n in ("cascade", "prepass", "canon"):
+            v = getattr(self, n)
+            if v is not None:
+                ids.add(v.id)
+        return ids
+
+    def region(self, root, depth=2, extra_stop=()):
+        return Region(self, root, depth, stop=(self.role_ids() - {root.id}) | set(extra_stop))
 
     def require(self, name):
         v = getattr(self, name)
@@ -217,6 +234,91 @@ class Roles:
         return None
 
 
+class Region:
+    """A root body seen together with the helpers it delegates to: same-crate, user-written functions that are not
+    themselves roles (`stop`), reachable within `depth` calls, plus the closures created on the way. Every item
+    remembers the block of the ROOT from which it is reached (`root_bb`) and a converter that rewrites a term of
+    the helper's context into the root's context (parameter / captured-variable substitution). Extracting a helper,
+    or turning a loop into `iter().for_each(..)`, therefore does not hide a call from a rule."""
+
+    def __init__(self, R, root, depth=2, stop=(), ledger=False):
+        self.R = R
+        self.ledger = ledger or root.id.startswith("cgt_core::matcher::acquisition_ledger::")
+        self.F = R.F
+        self.root = root
+        self.stop = set(stop)
+        self.items = []      # dicts: body, bb, term, root_bb, conv, tb, path
+        self.bodies = {root.id: root}
+        self.convs = {}
+        self.expansions = []
+        self._closures_done = set()
+        self._expand(root, None, lambda t: t, depth, (root.short,))
+
+    def _is_helper(self, h):
+        if h is None or h.id in self.stop or h.id == self.root.id:
+            return False
+        if h.crate != self.root.crate or h.kind not in ("fn", "method"):
+            return False
+        if not P.user_written(self.F, h):
+            return False
+        if h.id.startswith("cgt_core::matcher::acquisition_ledger::") and not self.ledger:
+            return False
+        return True
+
+    def _expand(self, body, root_bb, conv, d, path, via=None):
+        from mir import subst
+        tb = self.R.terms(body, 0)
+        self.convs[body.id] = conv
+        ex = dict(body=body, conv=conv, root_bb=root_bb, path=path, tb=tb, via=via)
+        self.expansions.append(ex)
+        for i, t in body.calls():
+            rb = root_bb if root_bb is not None else i
+            it = dict(body=body, bb=i, term=t, root_bb=rb, conv=conv, tb=tb, path=path, ex=ex)
+            self.items.append(it)
+            h = self.F.bodies.get(t["callee"])
+            # a helper is expanded once per call site (its parameters differ from site to site); recursion is cut by `path`
+            if d > 0 and self._is_helper(h) and h.short not in path and len(self.expansions) < 400:
+                args_terms = [conv(tb.operand(a)) for a in t["args"]]
+                self.bodies[h.id] = h
+                self._expand(h, rb, (lambda term, A=args_terms: subst(term, A)), d - 1, path + (h.short,), via=it)
+        for i, si, s in body.assigns():
+            rv = s["rv"]
+            if rv["k"] == "closure" and rv["id"] in self.F.bodies and (rv["id"], path) not in self._closures_done:
+                self._closures_done.add((rv["id"], path))
+                cb = self.F.bodies[rv["id"]]
+                caps = [conv(tb.operand(o)) for o in rv["ops"]]
+                rb = root_bb if root_bb is not None else i
+                self.bodies[cb.id] = cb
+
+                def cconv(term, caps=caps, cid=cb.id):
+                    def sub(x):
+                        if not isinstance(x, tuple) or not x:
+                            return x
+                        if x[0] == "field" and isinstance(x[1], tuple) and x[1] and x[1][0] == "param" and x[1][1] == 0:
+                            try:
+                                return caps[int(x[2])]
+                            except (ValueError, IndexError):
+                                return x
+                        if x[0] == "param" and x[1] >= 1:
+                            # the closure's own parameters must not be mistaken for the root's
+                            return ("cparam", cid, x[1], x[2] if len(x) > 2 else None)
+                        return tuple(sub(y) if isinstance(y, tuple) else y for y in x)
+                    return sub(term)
+                self._expand(cb, rb, cconv, d, path + (cb.id,), via=dict(body=body, bb=i, closure=cb.id, ex=ex))
+
+    def calls(self, pred):
+        for it in self.items:
+            if pred(it["term"]["callee"]):
+                yield it
+
+    def arg(self, it, k):
+        """k-th argument of the call, as a term of the ROOT's context"""
+        return it["conv"](it["tb"].operand(it["term"]["args"][k]))
+
+    def local_args(self, it):
+        return [it["tb"].operand(a) for a in it["term"]["args"]]
+
+
 def _has_field(p):
     return any(isinstance(e, dict) and "f" in e for e in place_proj(p))
 
@@ -231,6 +333,22 @@ def _last_named_field(p):
             continue
         break
     return None
+
+
+def sell_time_ratio(q):
+    """Match.quantity of a 30-day leg has the form min(remaining, available ÷ R): return (remaining, available, R) or None"""
+    if isinstance(q, tuple) and q and q[0] == "call" and parse_callee(q[1])[2] == "min" and len(q[2]) == 2:
+        a, c = q[2]
+        for rem, div in ((a, c), (c, a)):
+            if isinstance(div, tuple) and div and div[0] == "/" and isinstance(rem, tuple) and rem and rem[0] == "param":
+                return rem, div[1], div[2]
+    return None
+
+
+def times_ratio(term, q, r):
+    """term == q × r (as a normalised product)"""
+    from mir import mk_mul
+    return term == mk_mul([q, r])
 
 
 def guards_of(b, tb, bb):
